@@ -866,11 +866,11 @@ def run(ctx):
     if ctx.shard == 0:
         for c in _probe_cases():
             eval_sample(c, ctx)
-    maxn = ctx.scale(24, 64)
-    explore(ctx, "sample", sample_case(maxn=maxn), eval_sample, ctx.share(ctx.scale(30000, 2000000)))
-    explore(ctx, "sample-short", sample_case(maxn=5), eval_sample, ctx.share(ctx.scale(10000, 600000)))
-    explore(ctx, "analytic", analytic_case(), eval_analytic, ctx.share(ctx.scale(480, 16000)))
-    explore(ctx, "engine", engine_case(), eval_engine, ctx.share(ctx.scale(1600, 60000)))
+    maxn = ctx.scale(24, 48)
+    explore(ctx, "sample", sample_case(maxn=maxn), eval_sample, ctx.share(ctx.scale(24000, 800000)))
+    explore(ctx, "sample-short", sample_case(maxn=5), eval_sample, ctx.share(ctx.scale(8000, 300000)))
+    explore(ctx, "analytic", analytic_case(), eval_analytic, ctx.share(ctx.scale(400, 12000)))
+    explore(ctx, "engine", engine_case(), eval_engine, ctx.share(ctx.scale(1200, 40000)))
 
 
 def replay(ctx, payload):
